@@ -5,7 +5,7 @@ import enum
 
 import z3
 
-from .theory import Bool, Int, Ref
+from .theory import NONE_REF, Bool, Int, Ref
 from .values import (F, FAll, FAnd, FEx, FImp, FOr, FT, Sym, VExc, VFunc, VList, VObj, VOpt, VSet,
                      VUnique)
 
@@ -77,9 +77,9 @@ class Base:
             return Sym(z3.Bool(name), "bool")
         if kind == "str":
             return Sym(z3.Const(name, self.th.Str), "str")
-        if kind.startswith("ref"):
+        if kind.startswith("ref") or kind.startswith("nref"):
             c = kind.split(":", 1)[1] if ":" in kind else cls
-            return Sym(z3.Const(name, Ref), "ref", c)
+            return Sym(z3.Const(name, Ref), "ref", c, nullable=kind.startswith("nref"))
         if kind.startswith("enum:"):
             c = kind.split(":", 1)[1]
             sort, _ = self.enum_sort(c)
@@ -108,7 +108,7 @@ class Base:
             return Bool
         if ek == "str":
             return self.th.Str
-        if ek.startswith("ref"):
+        if ek.startswith("ref") or ek.startswith("nref"):
             return Ref
         if ek.startswith("enum:"):
             return self.enum_sort(ek[5:])[0]
@@ -133,6 +133,8 @@ class Base:
     def z(self, v, want=None):
         if isinstance(v, Sym):
             return v.t
+        if v is None:
+            return NONE_REF          # (only meaningful where a nullable reference is expected)
         if isinstance(v, bool):
             return z3.BoolVal(v)
         if isinstance(v, enum.Enum):
@@ -150,6 +152,8 @@ class Base:
 
     def kind_of(self, v):
         if isinstance(v, Sym):
+            if v.k == "ref" and v.nullable:
+                return "nref:%s" % v.cls
             return v.k if v.k not in ("ref", "enum") else "%s:%s" % (v.k, v.cls)
         if isinstance(v, bool):
             return "bool"
@@ -198,6 +202,8 @@ class Base:
             lv = self.th.litval(t)
             if lv is not None:
                 return lv
+        if k == "nref":
+            return Sym(t, "ref", cls, nullable=True)
         return Sym(t, k, cls)
 
     # ---- assumptions / obligations
